@@ -2,7 +2,8 @@
 """Generate MANIFEST.json from tools/props.json (single source for what is claimed)."""
 import json, os
 V = os.path.dirname(os.path.dirname(os.path.abspath(__file__)))
-props = json.load(open(os.path.join(V, "tools", "props.json")))
+props = {f[:-5]: json.load(open(os.path.join(V, "tools", "props", f)))
+         for f in sorted(os.listdir(os.path.join(V, "tools", "props"))) if f.endswith(".json")}
 ids = [json.loads(l)["id"] for l in open(os.path.join(V, "properties.jsonl"))]
 hooks = json.load(open(os.path.join(V, "tools", "hooks.json")))
 checks, na = [], []
